@@ -316,10 +316,10 @@ func c19Keyed(w *World, r *Report, merge *ssa.Function) {
 	}
 	lockRule := func(fn *ssa.Function, lock string) {
 		isLock := func(in ssa.Instruction) bool { return isCallTo(in, "(*sync.RWMutex)."+lock, "(*sync.RWMutex).Lock") }
-		hasDefer := false
+		var unlocks []ssa.Instruction
 		eachInstr(fn, func(in ssa.Instruction) {
-			if d, ok := in.(*ssa.Defer); ok && strings.HasSuffix(CalleeName(&d.Call), "Unlock") {
-				hasDefer = true
+			if isExplicitUnlock(in) {
+				unlocks = append(unlocks, in)
 			}
 		})
 		eachInstr(fn, func(in ssa.Instruction) {
@@ -333,11 +333,47 @@ func c19Keyed(w *World, r *Report, merge *ssa.Function) {
 			if !touch {
 				return
 			}
-			if p := (&Walk{Barrier: isLock, Target: func(y ssa.Instruction) bool { return y == in }}).Find(entry(fn)); p != nil || !hasDefer {
+			isThis := func(y ssa.Instruction) bool { return y == in }
+			p := (&Walk{Barrier: isLock, Target: isThis}).Find(entry(fn))
+			for _, u := range unlocks {
+				if p == nil {
+					// released explicitly and touched afterwards without taking the lock again
+					p = (&Walk{Barrier: isLock, Target: isThis}).Find(after(u))
+				}
+			}
+			if p != nil {
 				ob.Violate("unlocked@"+FnName(fn), in.Pos(), FnName(fn)+" touches the view map without holding "+lock+" until it returns")
 			}
 		})
 		ob.Site(fn.Pos(), FnName(fn)+" under "+lock)
+		// read-merge-write is one critical section: no explicit unlock between a lookup of the
+		// view and a later write of it
+		for _, u := range unlocks {
+			var lookups, updates []ssa.Instruction
+			eachInstr(fn, func(in ssa.Instruction) {
+				switch x := in.(type) {
+				case *ssa.MapUpdate:
+					updates = append(updates, in)
+				case *ssa.Lookup:
+					if _, isMap := x.X.Type().Underlying().(*types.Map); isMap {
+						lookups = append(lookups, in)
+					}
+				}
+			})
+			for _, l := range lookups {
+				if (&Walk{Target: func(y ssa.Instruction) bool { return y == u }}).Find(after(l)) == nil {
+					continue
+				}
+				for _, m := range updates {
+					if (&Walk{Target: func(y ssa.Instruction) bool { return y == m }}).Find(after(u)) != nil && l.Block() != nil {
+						// the same iteration: the write is reachable from the unlock without passing the lookup again
+						if (&Walk{Barrier: func(y ssa.Instruction) bool { return y == l }, Target: func(y ssa.Instruction) bool { return y == m }}).Find(after(u)) != nil {
+							ob.Violate("lookup-update-split@"+FnName(fn), u.Pos(), FnName(fn)+" releases the lock between reading an entry of the view and writing the merged entry back: an update merged in between is lost")
+						}
+					}
+				}
+			}
+		}
 	}
 	lockRule(up, "Lock")
 	lockRule(si, "RLock")
@@ -436,6 +472,31 @@ func c19Feeders(w *World, r *Report) {
 		// the feeder hands over everything it learnt: the whole converted shard list of the node
 		// host, or the whole shard view of the decoded remote state - not a filtered copy
 		whole := (strings.Contains(arg, "toShardViewList(") && strings.HasSuffix(arg, ".ShardInfoList)")) || strings.HasSuffix(arg, ".ShardView")
+		// a feeder that decodes what it feeds decodes into a value of its own: encoding/json
+		// decodes into existing slice elements and maps without emptying them, and the merge
+		// keeps the update's membership map by reference
+		eachInstr(ci.Parent(), func(in ssa.Instruction) {
+			c := plainCall(in)
+			if c == nil || len(c.Args) != 2 || !(CalleeName(c) == "encoding/json.Unmarshal" || strings.HasSuffix(CalleeName(c), ".Unmarshal")) {
+				return
+			}
+			t := c.Args[1]
+			for d := 0; d < 4; d++ {
+				switch x := t.(type) {
+				case *ssa.MakeInterface:
+					t = x.X
+				case *ssa.ChangeInterface:
+					t = x.X
+				}
+			}
+			ob.Site(in.Pos(), FnName(ci.Parent())+" decodes into "+Expr(t))
+			al, isAlloc := t.(*ssa.Alloc)
+			if !isAlloc || al.Parent() != ci.Parent() {
+				ob.Violate("feeder-decodes-into-reused@"+FnName(ci.Parent()), in.Pos(), FnName(ci.Parent())+" decodes the remote state into `"+Expr(t)+"`, not into a value allocated for this message: what an earlier message left there (slice elements, the membership maps the view kept by reference) is merged into the next one")
+			} else if h, body := loopOf(in.Block()); h != nil && !body[al.Block()] {
+				ob.Violate("feeder-decodes-into-reused@"+FnName(ci.Parent()), in.Pos(), FnName(ci.Parent())+" decodes every message of its loop into the same value")
+			}
+		})
 		if !whole {
 			ob.Violate("feeder-filters@"+FnName(ci.Parent()), ci.Pos(), FnName(ci.Parent())+" feeds the view with `"+arg+"`, not with the complete list it received: what it leaves out never reaches this node's view, and nodes exchanging state do not converge")
 		}
